@@ -9,6 +9,7 @@ set_option linter.unusedSimpArgs false
 
 theorem apply_slide_right_w (basis : Array W) (p : Pos) (x y : Nat) (hx : x + 1 < p.cfg.size) (hy : y < p.cfg.size)
     (h64 : p.cfg.size * p.cfg.size ≤ 64) (hply : 2 ≤ p.move) (hw : p.toMove = .white)
+    (hdis : ∀ k, p.white.getLsbD k = true → p.black.getLsbD k = true → False)
     (hown : p.white.getLsbD (x + y * p.cfg.size) = true)
     (hns : p.standing.getLsbD (x + y * p.cfg.size) = false)
     (hnc : p.caps.getLsbD (x + y * p.cfg.size) = false)
@@ -16,7 +17,7 @@ theorem apply_slide_right_w (basis : Array W) (p : Pos) (x y : Nat) (hx : x + 1 
     (hts : p.standing.getLsbD (x + 1 + (y) * p.cfg.size) = false)
     (htc : p.caps.getLsbD (x + 1 + (y) * p.cfg.size) = false) :
     ∃ q, p.apply basis ⟨x, y, Facts.mtSlideRight, 1#32⟩ = .ok q ∧
-      After p q (x + y * p.cfg.size) (x + 1 + (y) * p.cfg.size) p.white q.white := by
+      After p q (x + y * p.cfg.size) (x + 1 + (y) * p.cfg.size) p.white q.white p.black q.black := by
   have h2 : ¬ (p.move < 2) := by omega
   have hx' : ¬ ((p.cfg.size : Int) ≤ x) := by omega
   have hy' : ¬ ((p.cfg.size : Int) ≤ y) := by omega
@@ -53,7 +54,7 @@ theorem apply_slide_right_w (basis : Array W) (p : Pos) (x y : Nat) (hx : x + 1 
   · unfold Pos.apply
     simp [Facts.mtSlideRight, Facts.mtSlideLeft, Facts.mtSlideUp, Facts.mtSlideDown, Facts.mtPass, Facts.mtPlaceFlat,
       Facts.mtPlaceStanding, Facts.mtPlaceCapstone,
-      hw, h2, hx', hy', hxn, hyn, hidx, elems_one, hown, htop, hsz, hh1, slideLoop, slideStep, hidx2, hb1, hb2, hb3, hb4,
+      hw, h2, hx', hy', hxn, hyn, hidx, elems_one, hown, htop, hsz, hh1, slideLoop, slideStep, dispatch, openingRule, slideFrom, liftFrom, dropOn, enterSquare, Pos.setStack, hidx2, hb1, hb2, hb3, hb4,
       c1, c2, bind, Except.bind]
     apply finish_exists
     intro wg bg hwg hbg
@@ -62,7 +63,7 @@ theorem apply_slide_right_w (basis : Array W) (p : Pos) (x y : Nat) (hx : x + 1 
     · unfold Pos.apply
       simp [Facts.mtSlideRight, Facts.mtSlideLeft, Facts.mtSlideUp, Facts.mtSlideDown, Facts.mtPass, Facts.mtPlaceFlat,
         Facts.mtPlaceStanding, Facts.mtPlaceCapstone,
-        hw, h2, hx', hy', hxn, hyn, hidx, elems_one, hown, htop, hsz, hh1, hh0, hb, slideLoop, slideStep, hidx2, hb1, hb2,
+        hw, h2, hx', hy', hxn, hyn, hidx, elems_one, hown, htop, hsz, hh1, hh0, hb, slideLoop, slideStep, dispatch, openingRule, slideFrom, liftFrom, dropOn, enterSquare, Pos.setStack, hidx2, hb1, hb2,
         hb3, hb4, c1, c2, bind, Except.bind]
       apply finish_exists
       intro wg bg hwg hbg
@@ -70,7 +71,7 @@ theorem apply_slide_right_w (basis : Array W) (p : Pos) (x y : Nat) (hx : x + 1 
     · unfold Pos.apply
       simp [Facts.mtSlideRight, Facts.mtSlideLeft, Facts.mtSlideUp, Facts.mtSlideDown, Facts.mtPass, Facts.mtPlaceFlat,
         Facts.mtPlaceStanding, Facts.mtPlaceCapstone,
-        hw, h2, hx', hy', hxn, hyn, hidx, elems_one, hown, htop, hsz, hh1, hh0, hb, slideLoop, slideStep, hidx2, hb1, hb2,
+        hw, h2, hx', hy', hxn, hyn, hidx, elems_one, hown, htop, hsz, hh1, hh0, hb, slideLoop, slideStep, dispatch, openingRule, slideFrom, liftFrom, dropOn, enterSquare, Pos.setStack, hidx2, hb1, hb2,
         hb3, hb4, c1, c2, bind, Except.bind]
       apply finish_exists
       intro wg bg hwg hbg
@@ -78,6 +79,7 @@ theorem apply_slide_right_w (basis : Array W) (p : Pos) (x y : Nat) (hx : x + 1 
 
 theorem apply_slide_left_w (basis : Array W) (p : Pos) (x y : Nat) (hx0' : 1 ≤ x) (hx : x < p.cfg.size) (hy : y < p.cfg.size)
     (h64 : p.cfg.size * p.cfg.size ≤ 64) (hply : 2 ≤ p.move) (hw : p.toMove = .white)
+    (hdis : ∀ k, p.white.getLsbD k = true → p.black.getLsbD k = true → False)
     (hown : p.white.getLsbD (x + y * p.cfg.size) = true)
     (hns : p.standing.getLsbD (x + y * p.cfg.size) = false)
     (hnc : p.caps.getLsbD (x + y * p.cfg.size) = false)
@@ -85,7 +87,7 @@ theorem apply_slide_left_w (basis : Array W) (p : Pos) (x y : Nat) (hx0' : 1 ≤
     (hts : p.standing.getLsbD (x - 1 + (y) * p.cfg.size) = false)
     (htc : p.caps.getLsbD (x - 1 + (y) * p.cfg.size) = false) :
     ∃ q, p.apply basis ⟨x, y, Facts.mtSlideLeft, 1#32⟩ = .ok q ∧
-      After p q (x + y * p.cfg.size) (x - 1 + (y) * p.cfg.size) p.white q.white := by
+      After p q (x + y * p.cfg.size) (x - 1 + (y) * p.cfg.size) p.white q.white p.black q.black := by
   have h2 : ¬ (p.move < 2) := by omega
   have hx' : ¬ ((p.cfg.size : Int) ≤ x) := by omega
   have hy' : ¬ ((p.cfg.size : Int) ≤ y) := by omega
@@ -122,7 +124,7 @@ theorem apply_slide_left_w (basis : Array W) (p : Pos) (x y : Nat) (hx0' : 1 ≤
   · unfold Pos.apply
     simp [Facts.mtSlideRight, Facts.mtSlideLeft, Facts.mtSlideUp, Facts.mtSlideDown, Facts.mtPass, Facts.mtPlaceFlat,
       Facts.mtPlaceStanding, Facts.mtPlaceCapstone,
-      hw, h2, hx', hy', hxn, hyn, hidx, elems_one, hown, htop, hsz, hh1, slideLoop, slideStep, hidx2, hb1, hb2, hb3, hb4,
+      hw, h2, hx', hy', hxn, hyn, hidx, elems_one, hown, htop, hsz, hh1, slideLoop, slideStep, dispatch, openingRule, slideFrom, liftFrom, dropOn, enterSquare, Pos.setStack, hidx2, hb1, hb2, hb3, hb4,
       c1, c2, bind, Except.bind]
     apply finish_exists
     intro wg bg hwg hbg
@@ -131,7 +133,7 @@ theorem apply_slide_left_w (basis : Array W) (p : Pos) (x y : Nat) (hx0' : 1 ≤
     · unfold Pos.apply
       simp [Facts.mtSlideRight, Facts.mtSlideLeft, Facts.mtSlideUp, Facts.mtSlideDown, Facts.mtPass, Facts.mtPlaceFlat,
         Facts.mtPlaceStanding, Facts.mtPlaceCapstone,
-        hw, h2, hx', hy', hxn, hyn, hidx, elems_one, hown, htop, hsz, hh1, hh0, hb, slideLoop, slideStep, hidx2, hb1, hb2,
+        hw, h2, hx', hy', hxn, hyn, hidx, elems_one, hown, htop, hsz, hh1, hh0, hb, slideLoop, slideStep, dispatch, openingRule, slideFrom, liftFrom, dropOn, enterSquare, Pos.setStack, hidx2, hb1, hb2,
         hb3, hb4, c1, c2, bind, Except.bind]
       apply finish_exists
       intro wg bg hwg hbg
@@ -139,7 +141,7 @@ theorem apply_slide_left_w (basis : Array W) (p : Pos) (x y : Nat) (hx0' : 1 ≤
     · unfold Pos.apply
       simp [Facts.mtSlideRight, Facts.mtSlideLeft, Facts.mtSlideUp, Facts.mtSlideDown, Facts.mtPass, Facts.mtPlaceFlat,
         Facts.mtPlaceStanding, Facts.mtPlaceCapstone,
-        hw, h2, hx', hy', hxn, hyn, hidx, elems_one, hown, htop, hsz, hh1, hh0, hb, slideLoop, slideStep, hidx2, hb1, hb2,
+        hw, h2, hx', hy', hxn, hyn, hidx, elems_one, hown, htop, hsz, hh1, hh0, hb, slideLoop, slideStep, dispatch, openingRule, slideFrom, liftFrom, dropOn, enterSquare, Pos.setStack, hidx2, hb1, hb2,
         hb3, hb4, c1, c2, bind, Except.bind]
       apply finish_exists
       intro wg bg hwg hbg
@@ -147,6 +149,7 @@ theorem apply_slide_left_w (basis : Array W) (p : Pos) (x y : Nat) (hx0' : 1 ≤
 
 theorem apply_slide_up_w (basis : Array W) (p : Pos) (x y : Nat) (hx : x < p.cfg.size) (hy : y + 1 < p.cfg.size)
     (h64 : p.cfg.size * p.cfg.size ≤ 64) (hply : 2 ≤ p.move) (hw : p.toMove = .white)
+    (hdis : ∀ k, p.white.getLsbD k = true → p.black.getLsbD k = true → False)
     (hown : p.white.getLsbD (x + y * p.cfg.size) = true)
     (hns : p.standing.getLsbD (x + y * p.cfg.size) = false)
     (hnc : p.caps.getLsbD (x + y * p.cfg.size) = false)
@@ -154,7 +157,7 @@ theorem apply_slide_up_w (basis : Array W) (p : Pos) (x y : Nat) (hx : x < p.cfg
     (hts : p.standing.getLsbD (x + (y + 1) * p.cfg.size) = false)
     (htc : p.caps.getLsbD (x + (y + 1) * p.cfg.size) = false) :
     ∃ q, p.apply basis ⟨x, y, Facts.mtSlideUp, 1#32⟩ = .ok q ∧
-      After p q (x + y * p.cfg.size) (x + (y + 1) * p.cfg.size) p.white q.white := by
+      After p q (x + y * p.cfg.size) (x + (y + 1) * p.cfg.size) p.white q.white p.black q.black := by
   have h2 : ¬ (p.move < 2) := by omega
   have hx' : ¬ ((p.cfg.size : Int) ≤ x) := by omega
   have hy' : ¬ ((p.cfg.size : Int) ≤ y) := by omega
@@ -192,7 +195,7 @@ theorem apply_slide_up_w (basis : Array W) (p : Pos) (x y : Nat) (hx : x < p.cfg
   · unfold Pos.apply
     simp [Facts.mtSlideRight, Facts.mtSlideLeft, Facts.mtSlideUp, Facts.mtSlideDown, Facts.mtPass, Facts.mtPlaceFlat,
       Facts.mtPlaceStanding, Facts.mtPlaceCapstone,
-      hw, h2, hx', hy', hxn, hyn, hidx, elems_one, hown, htop, hsz, hh1, slideLoop, slideStep, hidx2, hb1, hb2, hb3, hb4,
+      hw, h2, hx', hy', hxn, hyn, hidx, elems_one, hown, htop, hsz, hh1, slideLoop, slideStep, dispatch, openingRule, slideFrom, liftFrom, dropOn, enterSquare, Pos.setStack, hidx2, hb1, hb2, hb3, hb4,
       c1, c2, bind, Except.bind]
     apply finish_exists
     intro wg bg hwg hbg
@@ -201,7 +204,7 @@ theorem apply_slide_up_w (basis : Array W) (p : Pos) (x y : Nat) (hx : x < p.cfg
     · unfold Pos.apply
       simp [Facts.mtSlideRight, Facts.mtSlideLeft, Facts.mtSlideUp, Facts.mtSlideDown, Facts.mtPass, Facts.mtPlaceFlat,
         Facts.mtPlaceStanding, Facts.mtPlaceCapstone,
-        hw, h2, hx', hy', hxn, hyn, hidx, elems_one, hown, htop, hsz, hh1, hh0, hb, slideLoop, slideStep, hidx2, hb1, hb2,
+        hw, h2, hx', hy', hxn, hyn, hidx, elems_one, hown, htop, hsz, hh1, hh0, hb, slideLoop, slideStep, dispatch, openingRule, slideFrom, liftFrom, dropOn, enterSquare, Pos.setStack, hidx2, hb1, hb2,
         hb3, hb4, c1, c2, bind, Except.bind]
       apply finish_exists
       intro wg bg hwg hbg
@@ -209,7 +212,7 @@ theorem apply_slide_up_w (basis : Array W) (p : Pos) (x y : Nat) (hx : x < p.cfg
     · unfold Pos.apply
       simp [Facts.mtSlideRight, Facts.mtSlideLeft, Facts.mtSlideUp, Facts.mtSlideDown, Facts.mtPass, Facts.mtPlaceFlat,
         Facts.mtPlaceStanding, Facts.mtPlaceCapstone,
-        hw, h2, hx', hy', hxn, hyn, hidx, elems_one, hown, htop, hsz, hh1, hh0, hb, slideLoop, slideStep, hidx2, hb1, hb2,
+        hw, h2, hx', hy', hxn, hyn, hidx, elems_one, hown, htop, hsz, hh1, hh0, hb, slideLoop, slideStep, dispatch, openingRule, slideFrom, liftFrom, dropOn, enterSquare, Pos.setStack, hidx2, hb1, hb2,
         hb3, hb4, c1, c2, bind, Except.bind]
       apply finish_exists
       intro wg bg hwg hbg
@@ -217,6 +220,7 @@ theorem apply_slide_up_w (basis : Array W) (p : Pos) (x y : Nat) (hx : x < p.cfg
 
 theorem apply_slide_down_w (basis : Array W) (p : Pos) (x y : Nat) (hx : x < p.cfg.size) (hy0' : 1 ≤ y) (hy : y < p.cfg.size)
     (h64 : p.cfg.size * p.cfg.size ≤ 64) (hply : 2 ≤ p.move) (hw : p.toMove = .white)
+    (hdis : ∀ k, p.white.getLsbD k = true → p.black.getLsbD k = true → False)
     (hown : p.white.getLsbD (x + y * p.cfg.size) = true)
     (hns : p.standing.getLsbD (x + y * p.cfg.size) = false)
     (hnc : p.caps.getLsbD (x + y * p.cfg.size) = false)
@@ -224,7 +228,7 @@ theorem apply_slide_down_w (basis : Array W) (p : Pos) (x y : Nat) (hx : x < p.c
     (hts : p.standing.getLsbD (x + (y - 1) * p.cfg.size) = false)
     (htc : p.caps.getLsbD (x + (y - 1) * p.cfg.size) = false) :
     ∃ q, p.apply basis ⟨x, y, Facts.mtSlideDown, 1#32⟩ = .ok q ∧
-      After p q (x + y * p.cfg.size) (x + (y - 1) * p.cfg.size) p.white q.white := by
+      After p q (x + y * p.cfg.size) (x + (y - 1) * p.cfg.size) p.white q.white p.black q.black := by
   have h2 : ¬ (p.move < 2) := by omega
   have hx' : ¬ ((p.cfg.size : Int) ≤ x) := by omega
   have hy' : ¬ ((p.cfg.size : Int) ≤ y) := by omega
@@ -263,7 +267,7 @@ theorem apply_slide_down_w (basis : Array W) (p : Pos) (x y : Nat) (hx : x < p.c
   · unfold Pos.apply
     simp [Facts.mtSlideRight, Facts.mtSlideLeft, Facts.mtSlideUp, Facts.mtSlideDown, Facts.mtPass, Facts.mtPlaceFlat,
       Facts.mtPlaceStanding, Facts.mtPlaceCapstone,
-      hw, h2, hx', hy', hxn, hyn, hidx, elems_one, hown, htop, hsz, hh1, slideLoop, slideStep, hidx2, hb1, hb2, hb3, hb4,
+      hw, h2, hx', hy', hxn, hyn, hidx, elems_one, hown, htop, hsz, hh1, slideLoop, slideStep, dispatch, openingRule, slideFrom, liftFrom, dropOn, enterSquare, Pos.setStack, hidx2, hb1, hb2, hb3, hb4,
       c1, c2, bind, Except.bind]
     apply finish_exists
     intro wg bg hwg hbg
@@ -272,7 +276,7 @@ theorem apply_slide_down_w (basis : Array W) (p : Pos) (x y : Nat) (hx : x < p.c
     · unfold Pos.apply
       simp [Facts.mtSlideRight, Facts.mtSlideLeft, Facts.mtSlideUp, Facts.mtSlideDown, Facts.mtPass, Facts.mtPlaceFlat,
         Facts.mtPlaceStanding, Facts.mtPlaceCapstone,
-        hw, h2, hx', hy', hxn, hyn, hidx, elems_one, hown, htop, hsz, hh1, hh0, hb, slideLoop, slideStep, hidx2, hb1, hb2,
+        hw, h2, hx', hy', hxn, hyn, hidx, elems_one, hown, htop, hsz, hh1, hh0, hb, slideLoop, slideStep, dispatch, openingRule, slideFrom, liftFrom, dropOn, enterSquare, Pos.setStack, hidx2, hb1, hb2,
         hb3, hb4, c1, c2, bind, Except.bind]
       apply finish_exists
       intro wg bg hwg hbg
@@ -280,7 +284,7 @@ theorem apply_slide_down_w (basis : Array W) (p : Pos) (x y : Nat) (hx : x < p.c
     · unfold Pos.apply
       simp [Facts.mtSlideRight, Facts.mtSlideLeft, Facts.mtSlideUp, Facts.mtSlideDown, Facts.mtPass, Facts.mtPlaceFlat,
         Facts.mtPlaceStanding, Facts.mtPlaceCapstone,
-        hw, h2, hx', hy', hxn, hyn, hidx, elems_one, hown, htop, hsz, hh1, hh0, hb, slideLoop, slideStep, hidx2, hb1, hb2,
+        hw, h2, hx', hy', hxn, hyn, hidx, elems_one, hown, htop, hsz, hh1, hh0, hb, slideLoop, slideStep, dispatch, openingRule, slideFrom, liftFrom, dropOn, enterSquare, Pos.setStack, hidx2, hb1, hb2,
         hb3, hb4, c1, c2, bind, Except.bind]
       apply finish_exists
       intro wg bg hwg hbg
